@@ -135,7 +135,75 @@ _M2M = _cls_methods(MANY_TO_MANY, 'boltons.dictutils', [
      'tie_theorem': 'C17.src_m2m_update_dict_eq_model'},
 ])
 
+# boltons.cacheutils.LRI / LRU (round 3b, HEAP MODE: notes/SRCTIE.md "Object store").  The ring of four-slot list
+# cells `[PREV, NEXT, KEY, VALUE]` shared between the ring and `_link_lookup` lives in the object store `heap`; what
+# `_anchor`, the values of `_link_lookup`, the cell slots and the locals hold are dynamically typed `Val`s.  The
+# object IS its dict (`d`, reached as `self` / `super().<m>`); `heap` and `d` are not attribute names (`virtual`).
+# `on_miss` is a parameter: a callable κ -> (a value | an exception) or None, assumed not to touch the cache.
+# `with self._lock:` is transparent here (one method call = one atomic step; the locks are C03's subject).
+# `__init__`, `copy`, `__eq__`/`__ne__`/`__ior__`/`__repr__`, `_get_flattened_ll`/`_print_ll` (debugging helpers no
+# public method uses) are not translated; `__contains__`/`__len__` are inherited from dict.
+LRI = {
+    'name': 'LRI', 'lean_name': 'LRI', 'tparams': ['κ', 'ν'], 'deceq': ['κ'], 'inhabited': ['ν'],
+    'heap': {'field': 'heap', 'key': 'κ', 'val': 'ν'},
+    'state': {'heap': 'Heap', 'd': 'Dict κ ν', 'hit_count': 'Int', 'miss_count': 'Int', 'soft_miss_count': 'Int',
+              'max_size': 'Int', '_link_lookup': 'Dict κ Val', '_anchor': 'Val', 'on_miss': 'Option (Fun κ ν)'},
+    'virtual': ['heap', 'd'], 'dict_base': 'd', 'sentinels': ['_MISSING'], 'ignore_with': ['_lock'],
+}
+_LRI_GEN = 'cacheutils_lri'
+_LRI = _cls_methods(LRI, 'boltons.cacheutils', [
+    {'py': '_init_ll', 'name': 'init_ll', 'params': {}, 'result': 'None',
+     'tie_theorem': 'C02.src_init_ll_eq_model'},
+    {'py': '_get_link_and_move_to_front_of_ll', 'name': 'move_to_front', 'params': {'key': 'κ'}, 'result': 'Val',
+     'tie_theorem': 'C02.src_move_to_front_eq_model'},
+    {'py': '_set_key_and_add_to_front_of_ll', 'name': 'add_to_front', 'params': {'key': 'κ', 'value': 'ν'},
+     'result': 'None', 'tie_theorem': 'C02.src_add_to_front_eq_model'},
+    {'py': '_set_key_and_evict_last_in_ll', 'name': 'evict_last', 'params': {'key': 'κ', 'value': 'ν'},
+     'result': 'Val', 'tie_theorem': 'C02.src_evict_last_eq_model'},
+    {'py': '_remove_from_ll', 'name': 'remove_from_ll', 'params': {'key': 'κ'}, 'result': 'None',
+     'tie_theorem': 'C02.src_remove_from_ll_eq_model'},
+    {'py': '__setitem__', 'name': 'setitem', 'params': {'key': 'κ', 'value': 'ν'}, 'result': 'None',
+     'tie_theorem': 'C02.src_setitem_eq_model'},
+    {'py': '__getitem__', 'name': 'getitem', 'params': {'key': 'κ'}, 'result': 'Val',
+     'tie_theorem': 'C02.src_getitem_eq_model'},
+    {'py': 'get', 'name': 'get', 'params': {'key': 'κ', 'default': 'ν'}, 'result': 'Val',
+     'tie_theorem': 'C02.src_get_eq_model'},
+    {'py': '__delitem__', 'name': 'delitem', 'params': {'key': 'κ'}, 'result': 'None',
+     'tie_theorem': 'C02.src_delitem_eq_model'},
+    {'py': 'pop', 'name': 'pop', 'params': {'key': 'κ', 'default': 'Option ν'}, 'result': 'ν',
+     'tie_theorem': 'C02.src_pop_eq_model'},
+    {'py': 'popitem', 'name': 'popitem', 'params': {}, 'result': 'κ × ν',
+     'tie_theorem': 'C02.src_popitem_eq_model'},
+    {'py': 'clear', 'name': 'clear', 'params': {}, 'result': 'None',
+     'tie_theorem': 'C02.src_clear_eq_model'},
+    {'py': 'setdefault', 'name': 'setdefault', 'params': {'key': 'κ', 'default': 'ν'}, 'result': 'Val',
+     'tie_theorem': 'C02.src_setdefault_eq_model'},
+    {'py': 'update', 'name': 'update_pairs', 'params': {'E': 'List (κ × ν)'}, 'kwargs': {'F': 'Dict κ ν'},
+     'result': 'None', 'tie_theorem': 'C02.src_update_pairs_eq_model'},
+    {'py': 'update', 'name': 'update_dict', 'params': {'E': 'Dict κ ν'}, 'kwargs': {'F': 'Dict κ ν'},
+     'result': 'None', 'tie_theorem': 'C02.src_update_dict_eq_model'},
+])
+# LRU(LRI): the same object state; `__getitem__` is overridden, so the inherited `get` / `setdefault` (whose
+# `self[key]` is LRU.__getitem__) are translated again in the context of LRU; every other method is LRI's.
+LRU = dict(LRI, name='LRU', lean_name='LRU', state_lean='LRI', mro=['LRU', 'LRI'])
+_LRU = []
+for _m in [{'py': '__getitem__', 'name': 'getitem', 'qualname': 'LRU.__getitem__', 'params': {'key': 'κ'},
+            'result': 'Val', 'tie_theorem': 'C02.src_lru_getitem_eq_model'},
+           {'py': 'get', 'name': 'get', 'qualname': 'LRI.get', 'params': {'key': 'κ', 'default': 'ν'},
+            'result': 'Val', 'tie_theorem': 'C02.src_lru_get_eq_model'},
+           {'py': 'setdefault', 'name': 'setdefault', 'qualname': 'LRI.setdefault',
+            'params': {'key': 'κ', 'default': 'ν'}, 'result': 'Val',
+            'tie_theorem': 'C02.src_lru_setdefault_eq_model'}]:
+    _sp = dict(_m, module='boltons.cacheutils', cls=LRU, method=True, lean_name='LRU.' + _m['name'], kind='function',
+               raises=True)
+    del _sp['name']
+    _LRU.append(_sp)
+LRU['methods'] = [sp for sp in _LRI if sp['py'] not in ('__getitem__', 'get', 'setdefault')] + _LRU
+for _sp in _LRI + _LRU:
+    _sp['gen_file'] = _LRI_GEN
+
 SPECS = {
+    'C02': _LRI + _LRU,
     'C20': _TC,
     'C17': _OTO + _M2M,
     'C09': [
